@@ -3,7 +3,7 @@ import vlib
 from props import asynclib as al, solverstream as ss, enctie, tracecheck as tc
 
 THEOREMS = ["C10_once_checker", "C10_valid_oracle", "C10_reference", "C10_any_order_adds_facts",
-            "C10_any_order_complete", "C10_any_order_once", "C10_verdicts_agree"]
+            "C10_any_order_complete", "C10_any_order_once", "C10_verdicts_agree", "C10_protocol_never_asks_twice"]
 CHECKER = ("coqc Props/C10.v + Print Assumptions; harness async_cases --kind c10: schedule-controlled executor (FIFO, LIFO, random, "
            "bounded depth-first enumeration of completion orders) -> per schedule: termination (deadlock detection without "
            "timeouts), verdict = synchronous verdict, extracted o_valid on the solution, extracted onceb on the call history; harness "
